@@ -1482,11 +1482,14 @@ func (m *model) runStmts(rg *region, stmts []ast.Stmt) (em *emission) {
 			return nil, false
 		}
 	}
-	if fd, _ := findDecl(it, "Tree", "checkRecursion"); fd != nil {
+	for _, fd := range findRecursionWalkers(it) {
 		it.hooks[fd] = func(it *Interp, cl *Closure, args []Value) ([]Value, bool) {
-			if n, ok := args[0].(*Obj); ok {
-				if oi := m.oinfo(n); oi != nil {
-					return []Value{oi.consumes}, true
+			for _, a := range args {
+				if n, ok := a.(*Obj); ok && n != nil && n.t == m.nodeT {
+					if oi := m.oinfo(n); oi != nil {
+						return []Value{oi.consumes}, true
+					}
+					break
 				}
 			}
 			return nil, false
@@ -1740,4 +1743,61 @@ func (em *emission) labelParity() string {
 		out = append(out, "jumped to in the real pass but not marked by the dry pass (goto without its label): "+strings.Join(onlyR, ","))
 	}
 	return strings.Join(out, "; ")
+}
+
+
+// findRecursionWalkers: the left-recursion walk by its role — the function
+// with a node parameter and a boolean result that switches on the node's type
+// (a terminal case among the cases) and belongs to the code that reports
+// "possible infinite left recursion": the method of the tree, or the methods of
+// a visitor type of its own.
+func findRecursionWalkers(it *Interp) []*ast.FuncDecl {
+	if fd, _ := findDecl(it, "Tree", "checkRecursion"); fd != nil {
+		return []*ast.FuncDecl{fd}
+	}
+	recvOf := func(fd *ast.FuncDecl) string {
+		if fd.Recv != nil && len(fd.Recv.List) == 1 {
+			return recvTypeName(fd.Recv.List[0].Type)
+		}
+		return ""
+	}
+	family := ""
+	for _, fd := range it.decls {
+		if fd.Body == nil {
+			continue
+		}
+		ast.Inspect(fd.Body, func(n ast.Node) bool {
+			if bl, ok := n.(*ast.BasicLit); ok && bl.Kind == token.STRING && strings.Contains(bl.Value, "possible infinite left recursion") {
+				family = recvOf(fd)
+			}
+			return true
+		})
+	}
+	if family == "" || family == "Tree" || family == "node" {
+		return nil
+	}
+	var out []*ast.FuncDecl
+	for _, fd := range it.decls {
+		if fd.Body == nil || recvOf(fd) != family || fd.Type.Results == nil || len(fd.Type.Results.List) != 1 {
+			continue
+		}
+		if id, ok := fd.Type.Results.List[0].Type.(*ast.Ident); !ok || id.Name != "bool" {
+			continue
+		}
+		terminalCase := false
+		ast.Inspect(fd.Body, func(n ast.Node) bool {
+			if cc, ok := n.(*ast.CaseClause); ok {
+				for _, e := range cc.List {
+					if id, ok := e.(*ast.Ident); ok && id.Name == "TypeDot" {
+						terminalCase = true
+					}
+				}
+			}
+			return true
+		})
+		if terminalCase {
+			out = append(out, fd)
+		}
+	}
+	return out
 }
